@@ -188,6 +188,7 @@ type StoreOp struct {
 	Val      ssa.Value
 	Types    []string // proto/raw types marshalled into or out of the value
 	NewStore ssa.Value
+	Via      *ssa.Function // the repository helper the store was handed to, when the operation happens there
 }
 
 func (o *StoreOp) IsWrite() bool { return o.Kind == "Set" || o.Kind == "Delete" }
@@ -317,6 +318,14 @@ func (p *Program) storeInfo(fn *ssa.Function) *storeFnInfo {
 				}
 				p.followStore(fn, si, v, mod, pre, complete, false, v)
 			}
+			// a store accessor of the repository: a helper whose result is prefix.NewStore(..., constant prefix)
+			if f := c.StaticCallee(); f != nil && !c.IsInvoke() && IsCustomFn(f) && f.Blocks != nil {
+				if pre, complete, ok := p.storeAccessor(f); ok {
+					if v, isV := call.(ssa.Value); isV {
+						p.followStore(fn, si, v, mod, pre, complete, false, v)
+					}
+				}
+			}
 			// raw store: (sdk.Context).KVStore result used other than as NewStore arg
 			if f := c.StaticCallee(); f != nil && f.Name() == "KVStore" && strings.HasSuffix(f.String(), "types.Context).KVStore") {
 				v, _ := call.(ssa.Value)
@@ -336,6 +345,48 @@ func (p *Program) storeInfo(fn *ssa.Function) *storeFnInfo {
 		}
 	}
 	return si
+}
+
+// storeAccessor recognises a repository function that only opens a prefix store: every return hands back the result of
+// prefix.NewStore with one and the same constant prefix.
+func (p *Program) storeAccessor(f *ssa.Function) (pre string, complete, ok bool) {
+	if f.Signature.Results().Len() != 1 {
+		return "", false, false
+	}
+	n := 0
+	for _, b := range f.Blocks {
+		ret, isRet := b.Instrs[len(b.Instrs)-1].(*ssa.Return)
+		if !isRet {
+			continue
+		}
+		v := ret.Results[0]
+		for i := 0; i < 3; i++ {
+			switch x := v.(type) {
+			case *ssa.MakeInterface:
+				v = x.X
+				continue
+			case *ssa.ChangeInterface:
+				v = x.X
+				continue
+			}
+			break
+		}
+		call, isCall := v.(*ssa.Call)
+		if !isCall {
+			return "", false, false
+		}
+		sf := call.Call.StaticCallee()
+		if sf == nil || sf.String() != "github.com/cosmos/cosmos-sdk/store/prefix.NewStore" {
+			return "", false, false
+		}
+		pr, co, okp := p.ConstPrefix(call.Call.Args[1])
+		if !okp || (n > 0 && (pr != pre || co != complete)) {
+			return "", false, false
+		}
+		pre, complete = pr, co
+		n++
+	}
+	return pre, complete, n > 0
 }
 
 var storeMethodKinds = map[string]string{
@@ -421,6 +472,60 @@ func (p *Program) followStore(fn *ssa.Function, si *storeFnInfo, root ssa.Value,
 					continue // raw store wrapped into prefix store: handled at NewStore
 				} else if name == "KVStorePrefixIterator" || name == "KVStoreReversePrefixIterator" || name == "Paginate" || name == "FilteredPaginate" {
 					op.Kind = "Iterate"
+				} else if f := c.StaticCallee(); f != nil && !c.IsInvoke() && IsCustomFn(f) && f.Blocks != nil && p.storeHelperDepth < 3 {
+					// the store is handed to a helper of the repository (a generic loader, say): the helper's operations
+					// on that parameter are operations of this call, with the helper's key / value parameters replaced
+					// by the arguments given here
+					idx := -1
+					for i, a := range c.Args {
+						if a == v {
+							idx = i
+						}
+					}
+					if idx < 0 || idx >= len(f.Params) {
+						si.escapes = append(si.escapes, fmt.Sprintf("store passed to %s at %s", name, p.InstrPos(x)))
+						continue
+					}
+					tmp := &storeFnInfo{}
+					p.storeHelperDepth++
+					p.followStore(f, tmp, f.Params[idx], mod, pre, complete, raw, ns)
+					p.storeHelperDepth--
+					argOf := func(w ssa.Value) ssa.Value {
+						for i := 0; i < 4 && w != nil; i++ {
+							switch y := w.(type) {
+							case *ssa.Convert:
+								w = y.X
+								continue
+							case *ssa.ChangeType:
+								w = y.X
+								continue
+							}
+							break
+						}
+						if pa, ok := w.(*ssa.Parameter); ok {
+							for i, fp := range f.Params {
+								if fp == pa && i < len(c.Args) {
+									return c.Args[i]
+								}
+							}
+						}
+						return nil
+					}
+					for _, o := range tmp.ops {
+						no := &StoreOp{Fn: fn, Module: mod, Prefix: o.Prefix, Complete: o.Complete, Raw: raw, Kind: o.Kind, Instr: x, NewStore: ns, Types: o.Types, Via: f}
+						if o.Key != nil {
+							no.Key = argOf(o.Key)
+						}
+						if o.Val != nil {
+							no.Val = argOf(o.Val)
+						}
+						if o.Kind == "Iterate" && len(no.Types) == 0 {
+							no.Types = p.storeInfo(f).unmarsh
+						}
+						si.ops = append(si.ops, no)
+					}
+					si.escapes = append(si.escapes, tmp.escapes...)
+					continue
 				} else {
 					si.escapes = append(si.escapes, fmt.Sprintf("store passed to %s at %s", name, p.InstrPos(x)))
 					continue
@@ -785,7 +890,33 @@ func (p *Program) keyParts(v ssa.Value, at ssa.Instruction, depth int) ([]KeyCom
 				if parts, ok := p.joinEachParts(callee, ret.Results[0], x, depth); ok {
 					return parts, true
 				}
-				return p.keyParts(ret.Results[0], ret, depth+1)
+				parts, composed := p.keyParts(ret.Results[0], ret, depth+1)
+				// a component that is a parameter of the helper is, for this call, the argument handed in (which may
+				// itself be formatted: joinKey(hex.EncodeToString(m), owner))
+				var out []KeyComponent
+				for _, c := range parts {
+					prm, isParam := c.Val.(*ssa.Parameter)
+					if !isParam || prm.Parent() != callee || (c.Verb != "%s" && c.Verb != "") {
+						out = append(out, c)
+						continue
+					}
+					var arg ssa.Value
+					for i, q := range callee.Params {
+						if q == prm && i < len(x.Call.Args) {
+							arg = x.Call.Args[i]
+						}
+					}
+					if arg == nil {
+						out = append(out, c)
+						continue
+					}
+					if sub, subComposed := p.keyParts(arg, x, depth+1); subComposed && len(sub) > 0 {
+						out = append(out, sub...)
+					} else {
+						out = append(out, KeyComponent{Verb: c.Verb, Val: arg, At: x})
+					}
+				}
+				return out, composed
 			}
 		}
 	case *ssa.Phi:
